@@ -54,6 +54,38 @@ fn group_field_types(ast: &mut syn::DeriveInput) {
     }
 }
 
+/// Puts an attribute that belongs to nobody's derive (`#[doc(hidden)]`, `#[allow(dead_code)]`, a tool attribute) on the item, on
+/// every variant and on every field.
+fn decorate_foreign(ast: &mut syn::DeriveInput, which: usize) {
+    let attr: syn::Attribute = match which % 3 {
+        0 => syn::parse_quote!(#[doc(hidden)]),
+        1 => syn::parse_quote!(#[allow(dead_code)]),
+        _ => syn::parse_quote!(#[rustfmt::skip]),
+    };
+    fn fields(fs: &mut syn::Fields, attr: &syn::Attribute) {
+        for f in fs.iter_mut() {
+            f.attrs.insert(0, attr.clone());
+            f.attrs.push(attr.clone());
+        }
+    }
+    ast.attrs.push(attr.clone());
+    match &mut ast.data {
+        syn::Data::Struct(s) => fields(&mut s.fields, &attr),
+        syn::Data::Enum(e) => {
+            for v in e.variants.iter_mut() {
+                v.attrs.insert(0, attr.clone());
+                v.attrs.push(attr.clone());
+                fields(&mut v.fields, &attr);
+            }
+        }
+        syn::Data::Union(u) => {
+            for f in u.fields.named.iter_mut() {
+                f.attrs.push(attr.clone());
+            }
+        }
+    }
+}
+
 pub fn main(args: &[String]) -> i32 {
     let serial = args.iter().any(|a| a == "--serial");
     let stdin = std::io::stdin();
@@ -85,6 +117,25 @@ pub fn main(args: &[String]) -> i32 {
             expand_str(d, item)
         };
         let mut j = outcome_json(&id, &o, t0.elapsed().as_micros());
+        if let Some(which) = v.get("foreign").and_then(|c| c.as_u64()) {
+            // the same item with an unrelated attribute before and after the attributes of the item, of every variant and of every
+            // field: the outcome must be the same (compared here, so that only a verdict travels)
+            if let Ok(Ok(mut ast)) = std::panic::catch_unwind(|| syn::parse_str::<syn::DeriveInput>(item)) {
+                decorate_foreign(&mut ast, which as usize);
+                let o2 = expand_ast(d, &ast);
+                let same = match (&o, &o2) {
+                    (Outcome::Ok(a), Outcome::Ok(b)) => a == b || canonical_items(a) == canonical_items(b),
+                    (Outcome::Err(a), Outcome::Err(b)) => a == b,
+                    (Outcome::Panic { .. }, Outcome::Panic { .. }) => true,
+                    (Outcome::ParseFail(_), Outcome::ParseFail(_)) => true,
+                    _ => false,
+                };
+                j["foreign_same"] = serde_json::json!(same);
+                if !same {
+                    j["foreign_out"] = outcome_json(&id, &o2, 0);
+                }
+            }
+        }
         if v.get("where").and_then(|c| c.as_bool()).unwrap_or(false) {
             // only the where-predicates of the first impl (C04 compares nothing else): saves shipping and re-parsing the text
             if let Outcome::Ok(t) = &o {
